@@ -63,6 +63,8 @@ type vC14PvSim struct {
 	sendLt   time.Duration
 	grace    time.Duration
 	failFor  time.Duration // the router fails until this much time has passed (real-time twin)
+	probeOK  bool          // the connectivity probe (lookup of the own id) succeeds even while failFor lasts
+	selfKey  string
 	born     time.Time
 	tick     func(kind, label string)
 	inflight atomic.Int64
@@ -93,7 +95,7 @@ func (s *vC14PvSim) GetClosestPeers(ctx context.Context, k string) ([]peer.ID, e
 	if err := vC14PvWait(ctx, s.routerLt); err != nil { // returns at once when cancelled: callers may hold a mutex Close waits on
 		return nil, err
 	}
-	if s.failFor > 0 && time.Since(s.born) < s.failFor {
+	if s.failFor > 0 && time.Since(s.born) < s.failFor && !(s.probeOK && k == s.selfKey) {
 		return nil, errors.New("vC14: network unreachable")
 	}
 	out := kb.SortClosestPeers(s.ids, kb.ConvertKey(k))
@@ -526,8 +528,15 @@ func TestVerifRace_C14_provider_early(t *testing.T) {
 			if r.Intn(2) == 0 {
 				sim.failFor = time.Duration(r.Intn(20000)) * time.Microsecond
 			}
-			c.Set("router_fails_for_us", sim.failFor.Microseconds())
 			selfH, _ := mh.Sum([]byte(fmt.Sprintf("c14pv-early-%d", r.Int63())), mh.SHA2_256, -1)
+			if c.Idx%3 == 0 {
+				// the node is found online (probe answered) while every other lookup still fails when Close lands:
+				// the prefix-length measurement is in its retry loop at the Close instant
+				sim.probeOK, sim.selfKey = true, string(peer.ID(selfH))
+				sim.failFor = closeAfter + 40*time.Millisecond
+			}
+			c.Set("router_fails_for_us", sim.failFor.Microseconds())
+			c.Set("probe_answered_while_failing", sim.probeOK)
 			addrs := []ma.Multiaddr{ma.StringCast("/ip4/9.9.9.9/tcp/4001")}
 			opts := []Option{WithPeerID(peer.ID(selfH)), WithRouter(sim), WithMessageSender(sim), WithSelfAddrs(func() []ma.Multiaddr { return addrs }),
 				WithReprovideInterval(time.Hour), WithDatastore(vjds.New())}
@@ -565,7 +574,30 @@ func TestVerifRace_C14_provider_early(t *testing.T) {
 			online, inflight := p.connectivity.IsOnline() && !p.isOffline(), sim.inflight.Load()
 			c.Set("online_at_close", online)
 			c.Set("calls_in_flight_at_close", inflight)
-			cerr := p.Close() // a Close that never returns ends in the wall-clock watchdog (inconclusive, with a dump)
+			// Close runs on its own goroutine so that a Close that never returns can be convicted LOGICALLY: Close
+			// cancels the provider's context first; an instance that keeps STARTING router calls after that
+			// (counted, not timed: 200 calls begun after Close was invoked, where correct code starts at most a
+			// handful - one per measurement goroutine and per worker - before it notices) has not stopped.
+			gcpAtClose := sim.nGCP.Load()
+			closed := make(chan error, 1)
+			go func() { closed <- p.Close() }()
+			var cerr error
+		waitClose:
+			for {
+				select {
+				case cerr = <-closed:
+					break waitClose
+				default:
+				}
+				if started := sim.nGCP.Load() - gcpAtClose; started >= 200 {
+					buf := make([]byte, 1<<20)
+					buf = buf[:runtime.Stack(buf, true)]
+					c.FailSig("close-returns", "close-pending-while-instance-keeps-calling-router", "Close has not returned although the provider started %d further router calls after Close was invoked (Close %v after construction, online=%v): the instance does not stop\n%s", started, closeAfter, online, vc14.Dump(vc14.Owned(), 6))
+					c.ExitNow()
+				}
+				time.Sleep(2 * time.Millisecond)
+			}
+			c.Obs("router_calls_started_after_close", int(sim.nGCP.Load()-gcpAtClose))
 			c.Clause("close-returns")
 			if cerr != nil {
 				c.Logf("Close returned %v", cerr)
